@@ -69,6 +69,12 @@ pub const SCHEMA_NAMES: &[&str] = &[
 ];
 
 pub const EASY_PROPS: &[&str] = &["id", "name", "count", "price", "active", "created", "label", "note", "email", "size", "owner", "kind"];
+/// every strict and reserved keyword is a legal OpenAPI name (D: "Rust keywords ... included")
+pub const KEYWORD_PROPS: &[&str] = &[
+    "as", "break", "const", "continue", "crate", "else", "enum", "extern", "false", "fn", "for", "if", "impl", "in", "let", "loop", "match", "mod",
+    "move", "mut", "pub", "ref", "return", "self", "Self", "static", "struct", "super", "trait", "true", "type", "unsafe", "use", "where", "while",
+    "async", "await", "dyn", "abstract", "become", "box", "do", "final", "macro", "override", "priv", "typeof", "unsized", "virtual", "yield", "try",
+];
 pub const HARD_PROPS: &[&str] = &[
     "type", "in", "self", "fn", "loop", "async", "match", "userId", "created_at", "2fa", "X-Rate-Limit",
     "address.line1", "HTTPStatus", "v2", "item2Id", "page size", "e-mail", "Ref", "is_1099", "a_1", "crate", "super",
@@ -161,7 +167,7 @@ fn field_ref(rng: &mut Rng, refs: &[String], depth: usize) -> SRef {
 fn object_schema(rng: &mut Rng, p: &Profile, refs: &[String]) -> Schema {
     let n = 1 + rng.below(5);
     let mut taken = vec![];
-    let pool: Vec<&str> = if p.hard_names && rng.chance(1, 2) { HARD_PROPS.to_vec() } else { EASY_PROPS.to_vec() };
+    let pool: Vec<&str> = if p.hard_names && rng.chance(1, 2) { [HARD_PROPS, KEYWORD_PROPS].concat() } else { EASY_PROPS.to_vec() };
     let names = pick_distinct(rng, &pool, n, &mut taken);
     let mut props = vec![];
     let mut required = vec![];
@@ -194,7 +200,13 @@ pub fn gen_spec(rng: &mut Rng, p: &Profile) -> Spec {
         // only reference object/enum-like components most of the time (others are aliases/primitives)
         let k = rng.below(14);
         let sc = match k {
-            0..=6 => object_schema(rng, p, &refs),
+            0..=6 => {
+                let mut o = object_schema(rng, p, &refs);
+                if p.hard_names && rng.chance(1, 6) {
+                    o.nullable = true;
+                }
+                o
+            }
             7 => {
                 let mut t = vec![];
                 let nv = 1 + rng.below(4);
@@ -322,7 +334,7 @@ pub fn gen_spec(rng: &mut Rng, p: &Profile) -> Spec {
             scope.push(norm(&pname));
         }
         let np = rng.below(5);
-        let pool: Vec<&str> = if p.hard_names && rng.chance(1, 2) { HARD_PROPS.to_vec() } else { EASY_PROPS.to_vec() };
+        let pool: Vec<&str> = if p.hard_names && rng.chance(1, 2) { [HARD_PROPS, KEYWORD_PROPS].concat() } else { EASY_PROPS.to_vec() };
         for nm in pick_distinct(rng, &pool, np, &mut scope) {
             let loc = match rng.below(6) {
                 0 => Loc::Header,
@@ -490,8 +502,9 @@ pub fn gen_spec(rng: &mut Rng, p: &Profile) -> Spec {
                 spec.security.push(vec!["api_key2".into()]);
             }
             0 => {
-                spec.schemes.push(("basicAuth".into(), Scheme::HttpBasic));
-                spec.security.push(vec!["basicAuth".into()]);
+                let nm = ["basicAuth", "BasicAuth", "BASIC_AUTH"][rng.below(3)];
+                spec.schemes.push((nm.into(), Scheme::HttpBasic));
+                spec.security.push(vec![nm.into()]);
             }
             1 => {
                 spec.schemes.push(("session".into(), Scheme::ApiKey { loc: Loc::Cookie, name: "SESSIONID".into() }));
@@ -514,14 +527,20 @@ pub fn gen_spec(rng: &mut Rng, p: &Profile) -> Spec {
         }
     } else if p.security {
         match rng.below(5) {
-            0 | 1 => {}
+            0 => {}
+            1 => {
+                let nm = ["basicAuth", "BasicAuth", "BASIC_AUTH"][rng.below(3)];
+                spec.schemes.push((nm.into(), Scheme::HttpBasic));
+                spec.security.push(vec![nm.into()]);
+            }
             2 => {
                 spec.schemes.push(("apiKeyAuth".into(), Scheme::ApiKey { loc: Loc::Header, name: "X-API-Key".into() }));
                 spec.security.push(vec!["apiKeyAuth".into()]);
             }
             3 => {
-                spec.schemes.push(("bearerAuth".into(), Scheme::HttpBearer));
-                spec.security.push(vec!["bearerAuth".into()]);
+                let nm = ["bearerAuth", "BearerToken", "BEARER"][rng.below(3)];
+                spec.schemes.push((nm.into(), Scheme::HttpBearer));
+                spec.security.push(vec![nm.into()]);
             }
             _ => {
                 spec.schemes.push(("token".into(), Scheme::ApiKey { loc: Loc::Query, name: "api_token".into() }));
